@@ -389,7 +389,7 @@ theorem step_refines (env : Env) (d : Decl) (c : Call) (h : NameInv d.seq) :
       exact ⟨this.1, this.2, text_nameInv _ d items h⟩
     | setReadonly b => exact ⟨rfl, rfl, h⟩
 
-/-- T10.5 for every finite sequence of operations (set, add-duplicate, item assignment, removal, item deletion, text
+/-- T10.5 for every finite sequence of operations (set with `normalize` on or off, add-duplicate, item assignment, removal, item deletion, text
 replacement, read-only switches, each under either error mode) from any block satisfying the name invariant:
 the entry list and the outcomes of the model are exactly those of the ordered-multimap specification. -/
 theorem run_refines (env : Env) (d : Decl) (cs : List Call) (h : NameInv d.seq) :
@@ -694,6 +694,18 @@ theorem property_text_fields (pf : SPrefs) (re : REnv) (p : Pty) (h : propTextP 
     propTextP pf re p = nameText pf p ++ [58] ++ valueField pf re p ++ prioText pf p :=
   propTextP_fields pf re p h
 
+/-- under the default preferences an entry without comments in its name and priority is written
+`name: value` or `name: value !priority` with the NORMALISED priority (`defaultPropertyPriority`) and the lower-cased
+literal name (`keepAllProperties` keeps the literal name) -/
+theorem property_text_default (p : Pty) (hw : p.wf = true) (hn : p.nameSeq = [.str p.lit])
+    (hp : p.prioSeq = [] ∨ p.prioSeq = [.str [33], .str p.litPrio]) (hl : p.litPrio ≠ [33]) :
+    propTextP SPrefs.default REnv.default p =
+      p.lit ++ [58, 32] ++ p.val.css ++ (if p.prioSeq = [] then [] else 32 :: 33 :: p.prio) := by
+  have hl' : ¬ ([33] = p.litPrio) := fun h => hl h.symm
+  rcases hp with hp | hp
+  · simp [propTextP, SPrefs.default, REnv.default, hw, hn, hp, namePartText]
+  · simp [propTextP, SPrefs.default, REnv.default, hw, hn, hp, namePartText, prioPartTextP, hl']
+
 /-- T10.8 (style block, reparse): if the front end reads every written declaration back as the same entry
 (`ReparseOk`: a condition on tokenizer / value grammar, the parameters of the model), then assigning the written items
 to ANY writable block is accepted and leaves exactly the written entries — same (name, value, priority), same order,
@@ -718,6 +730,31 @@ example : ∀ p ∈ props (declSeqP minifiedPrefs reparseWitness), propTextP min
     simpa [declSeqP, minifiedPrefs, reparseWitness, props] using hp
   subst this
   exact ⟨_, rfl, by decide, by decide⟩
+
+/-- … and for entries without comments in name and priority (`PlainEntry`) the condition follows from three facts about
+the front end on the written fields (`FrontEndReads`: the written name is one IDENT token, the value field parses to
+the stored value, the written priority is `!` + IDENT), plus — when the normalised name is written
+(`defaultPropertyName` without `keepAllProperties`) — the name being stable under `normalize` -/
+theorem cssText_reparse_plain (env : Env) (pf : SPrefs) (re : REnv) (seq : List Item) (d0 : Decl)
+    (hr : d0.readonly = false)
+    (hplain : ∀ p ∈ props (declSeqP pf seq), propTextP pf re p ≠ [] → PlainEntry p ∧ FrontEndReads env pf re p ∧
+      ((pf.defaultPropertyName && !pf.keepAllProperties) = true → normalize p.name = p.name)) :
+    (props (setCssText env d0 (srcOf pf re (declSeqP pf seq))).st.seq).map entryKey =
+      ((props (declSeqP pf seq)).filter (fun p => propTextP pf re p != [])).map entryKey :=
+  (cssText_reparse env pf re seq d0 hr (fun p hp ht =>
+    reparseOk_plain env pf re p (hplain p hp ht).1 (hplain p hp ht).2.1 (hplain p hp ht).2.2)).2.1
+
+/-- the hypotheses are satisfiable together (`c: 2`, minifying preferences, example front end) -/
+example : ∀ p ∈ props (declSeqP minifiedPrefs reparseWitness), propTextP minifiedPrefs REnv.default p ≠ [] →
+    PlainEntry p ∧ FrontEndReads exampleEnv minifiedPrefs REnv.default p ∧
+      ((minifiedPrefs.defaultPropertyName && !minifiedPrefs.keepAllProperties) = true → normalize p.name = p.name) := by
+  intro p hp _
+  have : p = { wf := true, nameSeq := [.str [99]], lit := [99], name := [99], val := ⟨[50], [50]⟩,
+               prioSeq := [], litPrio := [], prio := [] } := by
+    simpa [declSeqP, minifiedPrefs, reparseWitness, props] using hp
+  subst this
+  exact ⟨⟨rfl, rfl, by decide, by decide, by decide, Or.inl ⟨rfl, rfl⟩⟩,
+    ⟨by decide, by decide, by decide, fun h => absurd rfl h⟩, fun _ => by decide⟩
 
 /-- T10.8 (variables block, reparse): for every block satisfying the invariant (every reachable one, `vars_run`),
 assigning the item sequence of the written block (`vWritten`: names as written, comments when kept) to ANY writable
